@@ -125,6 +125,16 @@ Section Delivery.
     rewrite H0 in H3. symmetry in H3. apply length_zero_iff_nil in H3.
     rewrite H1, <- (displaced_nil_popped _ H3), H2, <- app_assoc. reflexivity.
   Qed.
+
+  (* whenever the ring is empty and the writer's hand is empty, everything appended so far has been handed to
+     the stream or was displaced — in particular at the end of every drain pass that saw `pop() = None` *)
+  Theorem empty_ring_all_delivered :
+    q (sh s) = [] -> inflight (wr s) = None ->
+    forall e, In e (pushed (gh s)) -> In e (nexts (out (gh s))) \/ In e (displaced (removed (gh s))).
+  Proof.
+    intros Hq Hi e He. pose proof pushed_partition as Hp. rewrite Hq, Hi in Hp. cbn in Hp.
+    rewrite app_nil_r in Hp. apply (Permutation_in _ Hp) in He. apply in_app_or in He. tauto.
+  Qed.
 End Delivery.
 
 (* in terms of the schedule: what the stream saw is a sub-sequence of the appends, in append order *)
